@@ -28,13 +28,12 @@ Fixpoint norm_comps (comps : list str) (stack : list str) : list str :=
       end
   end.
 
+(* a relative name is looked up below the working directory, which the
+   correspondence harness keeps at the root of the tree *)
 Definition squeeze (p : str) : str :=
-  match p with
-  | 47 :: _ => match norm_comps (split_on 47 p) [] with
-               | [] => [47]
-               | cs => concat (map (fun c => 47 :: c) cs)
-               end
-  | _ => p
+  match norm_comps (split_on 47 p) [] with
+  | [] => [47]
+  | cs => concat (map (fun c => 47 :: c) cs)
   end.
 
 Fixpoint tlookup (t : tree) (p : str) : option node :=
@@ -76,6 +75,32 @@ Fixpoint fs_slurp (fuel : nat) (t : tree) (p : str) : option str :=
         end
     | None => None
     end.
+
+(* get_absolute_path: a name starting with '/' is taken as it is; any other
+   name goes through realpath(), which normalises it and follows symbolic
+   links to the end (bounded chain; unresolvable names never get this far) *)
+Fixpoint fs_resolve (fuel : nat) (t : tree) (q : str) : str :=
+  if str_eqb q dev_null then q
+  else
+    match tlookup t q with
+    | Some (NLink target _ _) =>
+        match fuel with
+        | O => q
+        | S f =>
+            let tp := match target with
+                      | 47 :: _ => target
+                      | _ => dirname q ++ 47 :: target
+                      end in
+            fs_resolve f t (squeeze tp)
+        end
+    | _ => q
+    end.
+
+Definition real_name (t : tree) (p : str) : str :=
+  match p with
+  | 47 :: _ => p
+  | _ => fs_resolve 8 t (squeeze p)
+  end.
 
 (* scandir: the names directly below a directory, with "." and "..", sorted byte-wise *)
 Definition child_name (dir : str) (p : str) : option str :=
@@ -151,11 +176,12 @@ Definition gate (t : tree) (g : globals) (cb : callback) (o : popts) (path dl cm
               (* last_scanned_line_nr is only assigned while lines are read *)
               let eline := match lines_of content with [] => g_errline g | _ => r_lines r end in
               let evs' := evs ++ [EvOpen path] in
+              let ap := real_name t path in        (* what read_file is handed and records *)
               match r_err r with
               | ECONF_SUCCESS =>
                   let base := mkKF [] 0 [] 0 0 None (o_join o) (o_python o) [] [] None in
-                  mkGO (inr (keyfile_of_read base path dl cm r)) evs' path eline
-              | e => mkGO (inl e) evs' path eline
+                  mkGO (inr (keyfile_of_read base ap dl cm r)) evs' ap eline
+              | e => mkGO (inl e) evs' ap eline
               end
           end
   end.
